@@ -53,6 +53,10 @@ EXPLANATION += (
     'lock-step.'
 )
 
+EXPLANATION += (
+    ' Round 5: flatten / drop_level and the other settings are forwarded at every call (R-FWD/parameter-forwarded).'
+)
+
 RULE_TEXT = (
     "one obligation per consumer of the tree, per reducer call, per "
     "drop_level(<config>) call site, per flatten rebinding")
@@ -81,6 +85,10 @@ def check(ctx):
     check_backfill(ctx)
     from .C10 import check_node_identity
     check_node_identity(ctx, ('taxonomy.taxonomy_tree', 'cli.from_specified_markers'), floor=1)
+    # settings this property depends on are handed down every call
+    # chain, never left to a callee's default (sa/rules/forwarding.py)
+    from ..rules.forwarding import check_forwarding
+    check_forwarding(ctx, {'drop_level', 'flatten'})
 
 
 def check_single_version(ctx):
